@@ -1,3 +1,4 @@
+\* measured: 59,285 distinct / 549,274 generated states, depth 16
 SPECIFICATION Spec
 CONSTANTS
   Kinds = {"W", "F"}
@@ -6,6 +7,7 @@ CONSTANTS
   MaxCopies = 1
   MaxSends = 2
   MaxTgtW = 1
+  MaxDeliver = 2
 VIEW View
 INVARIANTS TypeOK C39_AtMostOnce C39_NoLossAfterSwitch C39_FenceClosesSource C39_Recoverable
 PROPERTIES C39_ReplayNoop C39_NonOwnerRefuses
